@@ -202,6 +202,10 @@ def r5(ctx):
     b, o, tr, fl = gs[0]
     s = sg[0]
     ctx.check(P, rule, "get event only for a block that is not held", fa.dominates(fl, s) and not fa.can_reach(tr, s), "send_on_get on the false edge of bitfield.get(index)", "send_on_get is reachable when the block is held", [site_desc(fa, s)])
+    skipped = [r for r in fa.returns if r in fa.reach(fl, avoiding=[s], include_src=True)] if fl != s else []
+    ctx.check(P, rule, "every read of a block that is not held emits the get event", not skipped, "no way from the not-held edge to a return avoids send_on_get",
+              "get can return for a block that is not held without sending the Get event (the send is under a further condition): a replicator listening for Get is never told to fetch that block",
+              [loc(fa, r) for r in skipped], key="C13|C13.R5|get|event on every miss")
     ctx.check(P, rule, "get event carries the requested index", strip(fa.arg_origin(s, 1)) == ("param", "index") and strip(o[3][1]) == ("param", "index"), "send_on_get(index) for get(index)", "event index is %s" % term_str(fa.arg_origin(s, 1))[:60])
     vals = [t for _, _, t in ret_values_in_region(fa, fl)]
     ctx.check(P, rule, "missing block returns Ok(None) right after the event", vals and all(is_agg(t, "Ok") and is_agg(agg_field(t, "0"), "None") for t in vals) and not region_has_sites(fa, fl, sites_any(fa, (READ_INFO, BS_READ, BYTE_RANGE_CORE))),
